@@ -64,3 +64,13 @@ package badger
 //@   precall badger/v4\.Txn\)\.CommitAt$ :: !old(ba.chunk) && old(ba.oldRoot.Hash) != hash.EmptyHash() ==> defined(oldRootsMeta) && inDom(oldRootsMeta.Roots, oldRootHash) && len(oldRootsMeta.Roots[oldRootHash]) >= 1
 //@   precall badger/v4\.Txn\)\.CommitAt$ :: !old(ba.chunk) && old(ba.oldRoot.Hash) != hash.EmptyHash() ==> defined(oldRootsMeta) && oldRootsMeta.Roots[oldRootHash][len(oldRootsMeta.Roots[oldRootHash])-1] == rootHash
 //@   note whenever a non-chunk batch with a non-empty old root reaches the metadata commit, the new root has been appended to the old root's derived-root list - also when both hashes are equal (an unchanged root carried into the next version) - and that metadata object is the one saved last. Prune treats a root without derived roots as "lone" and deletes the nodes it created, so a missing link makes a LATER finalized version unreadable once the earlier one is pruned
+
+// ---- storing nodes (C06): a successful PutNode has put the node into the batch ----
+
+//@ ghost var GBatSet int
+
+//@ func badgerBatch.PutNode
+//@   props C06
+//@   requires ba != nil && ptr != nil
+//@   ensures err == nil ==> GBatSet >= old(GBatSet) + 1
+//@   note every successful PutNode writes the node under its key into the batch of the version being committed - also during a multipart (checkpoint) restore and also when a node with the same hash already exists from an earlier version: the write at THIS version's timestamp is what keeps the node alive when the earlier version is pruned (seed C06_g skipped it for existing nodes: a restored, finalized root lost nodes when an older version was pruned)
